@@ -27,4 +27,14 @@ let exec_ref (line : string) : string =
    | EoResponse r -> "ok " ^ Lib_xrun.p_response r
    | o -> Lib_xrun.p_outcome o []) ^ " cls=" ^ cls
 
-let families = [ ("exec_sync", exec_sync); ("exec_ref", exec_ref) ]
+(* the decidable hypotheses of C26_eq_reference_decidable on the case (Run/ExecRefDefs.v): schema well-formed, one
+   field name per response key, no fragment cycle; and the known class *)
+let exec_hyps (line : string) : string =
+  let (s, d, _, _, _) = parse_case line in
+  let b x = if x then "1" else "0" in
+  match td_build s d with
+  | Some rd -> "wf=" ^ b (sch_exec_wf s) ^ " alias=" ^ b (rd_alias_consistent rd) ^ " acyclic=" ^ b (rd_acyclic rd)
+               ^ " covariant=" ^ b (known_covariant s rd)
+  | None -> "untyped"
+
+let families = [ ("exec_sync", exec_sync); ("exec_ref", exec_ref); ("exec_hyps", exec_hyps) ]
